@@ -83,6 +83,14 @@ _Bool __CPROVER_uninterpreted_poweq(uint64_t, uint64_t, uint64_t, uint64_t, uint
 #define LL2C_UMULOVF64(x, y) __CPROVER_uninterpreted_umulovf64((uint64_t)(x), (uint64_t)(y))
 #define LL2C_UDIV64(x, y) __CPROVER_uninterpreted_udiv64((uint64_t)(x), (uint64_t)(y))
 #define LL2C_UREM64(x, y) __CPROVER_uninterpreted_urem64((uint64_t)(x), (uint64_t)(y))
+int64_t __CPROVER_uninterpreted_smul64(int64_t, int64_t); _Bool __CPROVER_uninterpreted_smulovf64(int64_t, int64_t);
+#define LL2C_SMUL64(x, y) __CPROVER_uninterpreted_smul64((int64_t)(x), (int64_t)(y))
+#define LL2C_SMULOVF64(x, y) __CPROVER_uninterpreted_smulovf64((int64_t)(x), (int64_t)(y))
+uint64_t __CPROVER_uninterpreted_spow(uint64_t, uint64_t); _Bool __CPROVER_uninterpreted_spowfits(uint64_t, uint64_t);
+_Bool __CPROVER_uninterpreted_spoweq(uint64_t, uint64_t, uint64_t, uint64_t, uint64_t);
+#define SPEC_spow(a, b) __CPROVER_uninterpreted_spow((uint64_t)(a), (uint64_t)(b))
+#define SPECP_spowfits(a, b) __CPROVER_uninterpreted_spowfits((uint64_t)(a), (uint64_t)(b))
+#define SPECP_spoweq(v, b, e, b0, e0) __CPROVER_uninterpreted_spoweq((uint64_t)(v), (uint64_t)(b), (uint64_t)(e), (uint64_t)(b0), (uint64_t)(e0))
 #define SPEC_mulmod(a, b, n) __CPROVER_uninterpreted_mulmod((uint64_t)(a), (uint64_t)(b), (uint64_t)(n))
 #define SPEC_powmod(a, b, n) __CPROVER_uninterpreted_powmod((uint64_t)(a), (uint64_t)(b), (uint64_t)(n))
 #define SPEC_gcd(a, b) __CPROVER_uninterpreted_gcd((uint64_t)(a), (uint64_t)(b))
@@ -141,6 +149,10 @@ double __CPROVER_uninterpreted_fmul64(double, double); double __CPROVER_uninterp
 #define LL2C_UMULOVF64(x, y) VF_MUL_OVF(uint64_t, x, y)
 #define LL2C_UDIV64(x, y) ((uint64_t)((uint64_t)(x) / (uint64_t)(y)))
 #define LL2C_UREM64(x, y) ((uint64_t)((uint64_t)(x) % (uint64_t)(y)))
+#endif
+#ifndef LL2C_SMUL64
+#define LL2C_SMUL64(x, y) ((int64_t)((uint64_t)(x) * (uint64_t)(y)))
+#define LL2C_SMULOVF64(x, y) VF_MUL_OVF(int64_t, x, y)
 #endif
 #ifndef LL2C_SDIV64
 #define LL2C_SDIV64(x, y) ((int64_t)((int64_t)(x) / (int64_t)(y)))
